@@ -27,3 +27,8 @@ pub fn dedup_usize(v: &mut Vec<usize>)
 #[verifier::external_body] #[verifier::reject_recursive_types(K)] #[verifier::reject_recursive_types(V)]
 pub struct BTreeMap<K, V> { _k: core::marker::PhantomData<(K, V)> }
 impl<K, V> View for BTreeMap<K, V> { type V = Map<K, V>; uninterp spec fn view(&self) -> Map<K, V>; }
+// bit length: bitlen(n) = number of bits needed to write n (0 for n = 0); usize::leading_zeros = 64 - bitlen
+pub open spec fn p2(b: nat) -> nat decreases b { if b == 0 { 1 } else { 2 * p2((b - 1) as nat) } }
+pub open spec fn bitlen(n: nat) -> nat decreases n { if n == 0 { 0 } else { 1 + bitlen(n / 2) } }
+pub assume_specification [usize::leading_zeros] (n: usize) -> (r: u32)
+    ensures r == 64 - bitlen(n as nat), r <= 64;
